@@ -57,6 +57,7 @@ type c11Exec struct {
 	farDeadline bool // cancel plans: the context also has a deadline, an hour away
 	longLived   bool // run under the long-lived parent context (terminating scripts only)
 	guardLoop   bool // step/walk only: the action fails at once and the guard of its error branch never ends
+	guardKind   int  // 1: the action fails and the guard of its error branch loops; 2: the action completes and the guard of its branch loops; 3: no action, a pattern with two candidates, the guard loops for one of them
 }
 
 func runC11(c *sim.Ctx, t *testing.T) {
@@ -78,9 +79,12 @@ func runC11(c *sim.Ctx, t *testing.T) {
 		if !c11Scripts[p.script].endless && p.cancelAt == 0 && c.Bool("longlived") {
 			p.longLived = true
 		}
-		if p.via != "exec" && !p.longLived && c.Chance(1, 6, "guardloop") {
+		if p.via != "exec" && !p.longLived && c.Chance(1, 5, "guardloop") {
 			p.guardLoop = true
-			p.mode = 1
+			p.guardKind = 1 + c.Intn(3, "guardkind")
+			if p.guardKind == 1 {
+				p.mode = 1
+			}
 		}
 		plans[i] = p
 	}
@@ -167,11 +171,20 @@ func runC11(c *sim.Ctx, t *testing.T) {
 					case 2:
 						spec.ActionErrorNode = "aerr"
 					}
-					if p.guardLoop {
+					loop := &core.ActionSource{Interpreter: "ecmascript", Source: `for (;;) { _.props.tick(); }`}
+					switch p.guardKind {
+					case 1:
 						spec.Nodes["a"].ActionSource.Source = `_.props.tick(); throw new Error("boom");`
 						spec.Nodes["a"].Branches.Branches = []*core.Branch{
-							{Pattern: map[string]interface{}{"actionError": "?e"}, GuardSource: &core.ActionSource{Interpreter: "ecmascript", Source: `for (;;) { _.props.tick(); }`}, Target: "b"},
+							{Pattern: map[string]interface{}{"actionError": "?e"}, GuardSource: loop, Target: "b"},
 							{Target: "b"}}
+					case 2:
+						spec.Nodes["a"].ActionSource.Source = `_.props.tick(); return {"did": 1};`
+						spec.Nodes["a"].Branches.Branches = []*core.Branch{{Pattern: map[string]interface{}{"did": 1.0}, GuardSource: loop, Target: "b"}, {Target: "b"}}
+					case 3:
+						spec.Nodes["a"].ActionSource = nil
+						spec.Nodes["a"].Branches.Branches = []*core.Branch{{Pattern: map[string]interface{}{"likes": []interface{}{"?x"}},
+							GuardSource: &core.ActionSource{Interpreter: "ecmascript", Source: `if (_.bindings["?x"] === "a") { for (;;) { _.props.tick(); } } return _.bindings;`}, Target: "b"}}
 					}
 					// a host compiles its specs once, long before (and under another context than) any step
 					if err := spec.Compile(context.Background(), core.InterpretersMap{"ecmascript": interp}, true); err != nil {
@@ -179,6 +192,9 @@ func runC11(c *sim.Ctx, t *testing.T) {
 						break
 					}
 					st := &core.State{NodeName: "a", Bs: match.Bindings{}}
+					if p.guardKind == 3 {
+						st.Bs["likes"] = []interface{}{"a", "b"}
+					}
 					var to *core.State
 					if p.via == "step" {
 						stride, err := spec.Step(ctx, st, nil, nil, props)
@@ -241,7 +257,7 @@ func runC11(c *sim.Ctx, t *testing.T) {
 		name := fmt.Sprintf("x%d", i)
 		sc := c11Scripts[p.script]
 		desc := fmt.Sprintf("execution %d: script %q via %s (error mode %d), deadline %v, cancel at tick %d, tick %v", i, sc.name, p.via, p.mode, p.deadline, p.cancelAt, p.tickD)
-		shape += fmt.Sprintf("%s/%s/%d/%v/%d/%v/%v;", sc.name, p.via, p.mode, p.deadline, p.cancelAt, p.longLived, p.guardLoop)
+		shape += fmt.Sprintf("%s/%s/%d/%v/%d/%v/%v;", sc.name, p.via, p.mode, p.deadline, p.cancelAt, p.longLived, p.guardKind)
 		c.Count("executions")
 		if !o.returned {
 			c.Violate("timeout:still-running", "%s: did not return within %v of simulated time / %d scheduler steps", desc, c.Sched.SimTime, c.Sched.Steps)
@@ -249,9 +265,12 @@ func runC11(c *sim.Ctx, t *testing.T) {
 		}
 		nt, after := 0, 0
 		cut, haveCut := interruptAt[name]
-		if p.guardLoop {
-			// the action's watcher is released when the action has failed; the guard's is the second
+		if p.guardLoop && p.guardKind != 3 {
+			// the action's watcher is released when the action has ended; the guard's is the second
 			cut, haveCut = interruptAt[name+".2"]
+		} else if p.guardKind == 3 {
+			// the looping guard may be the first or the second execution of the step
+			haveCut = false
 		}
 		for _, e := range evs {
 			if e.Kind == "tick" && e.Id == name {
@@ -269,13 +288,36 @@ func runC11(c *sim.Ctx, t *testing.T) {
 			}
 		}
 		if p.guardLoop {
-			// the guard of the error branch is what has to be stopped: returning at all (above),
-			// promptly (ticks after the interrupt) and leaving nothing behind (below) is the claim
+			// the guard is what has to be stopped: returning at all (above), promptly (ticks after
+			// the interrupt) and leaving nothing behind (below) is the claim - and, where the
+			// guard certainly ran into the end of its context, that the step reports the timeout
 			c.Count("looping_guards")
+			// (kind 2: the action ticks once; a second tick can only be the guard's)
+			ranOut := (p.guardKind == 2 && nt >= 2) || (p.guardKind == 3 && nt > 0)
+			if ranOut && !c.Sched.Exhausted {
+				switch p.via {
+				case "step":
+					if o.err != ecmascript.InterruptedMessage {
+						c.Violate("timeout:guard:unreported:step", "%s (guard kind %d): the guard ran out of time but Step returned error %q and node %q", desc, p.guardKind, o.err, o.node)
+					}
+				case "walk":
+					if o.node != "error" || o.bsErr != ecmascript.InterruptedMessage {
+						c.Violate("timeout:guard:unreported:walk", "%s (guard kind %d): the guard ran out of time but the walk ended at node %q with error %q (err %q)", desc, p.guardKind, o.node, o.bsErr, o.err)
+					}
+				}
+			}
 			continue
 		}
 		if !sc.endless {
-			continue // a terminating script may finish before anybody stops it
+			// a terminating script may finish before anybody stops it; one that needs 5 ticks of
+			// at most 7 ms and has 300 ms (or no limit at all) must finish, whatever runs beside it
+			if sc.name == "finite" && p.cancelAt == 0 && (p.longLived || p.deadline >= 300*time.Millisecond) && !c.Sched.Exhausted {
+				if o.err != "" || o.bsErr != "" || (p.via != "exec" && o.node != "b") {
+					c.Violate("timeout:spurious", "%s: a script that needs 5 ticks ended with err=%q node=%q error=%q", desc, o.err, o.node, o.bsErr)
+				}
+				c.Count("scripts_that_must_finish")
+			}
+			continue
 		}
 		c.Count("endless_scripts")
 		timeoutText := ecmascript.InterruptedMessage
